@@ -39,6 +39,8 @@ def strs(tl):
 def edit_tags(e):
     tags = {"action:" + e["k"]}
     if e["k"] not in ("open", "save", "reopen"):
+        if e["k"] == "opendirty":
+            return tags
         te = e["te"]
         if te and e["tl"][-1] == []:
             tags.add("text:endsInBreak")
@@ -83,7 +85,7 @@ def main(tier, seed):
         "alphabet {a,b} x breaks {LF,CRLF,CR}: apply_change treats all non-break characters alike",
         "ranges lie inside the current document (property's quantifier); positions past the last line are not generated",
         "tabs are outside the alphabet (fortls replaces them by blanks on load by design)",
-        "didOpen is modelled as 'server reads the file'; a didOpen whose text differs from the file on disk is not generated",
+        "didOpen carries no text in most sessions (the server reads the file); the OpenDirty action re-opens the document with a buffer that differs from the file",
     ]
     rnd = random.Random(seed)
 
@@ -170,8 +172,17 @@ def reopen_session(st):
         s, c = adapter.mkserver(d)
         path = os.path.join(d, "s.f90")
         adapter.did_open(s, c, d, "s.f90")
-        adapter.notify(s, c, "textDocument/didChange", {"textDocument": {"uri": adapter.uri(d, "s.f90")},
-                                                         "contentChanges": [lsp_change(st["edit"]["prev"])]})
+        prev = st["edit"]["prev"]
+        if prev["k"] == "opendirty":
+            # the document was (re)opened with a buffer that differs from the file: close, open with that text
+            adapter.notify(s, c, "textDocument/didClose", {"textDocument": {"uri": adapter.uri(d, "s.f90")}})
+            adapter.did_open(s, c, d, "s.f90", text=render(prev["tl"], prev["te"]))
+            mid = list(s.workspace[path].contents_split)
+            if mid != strs(st["pl"]):
+                return (strs(st["pl"]), mid)
+        else:
+            adapter.notify(s, c, "textDocument/didChange", {"textDocument": {"uri": adapter.uri(d, "s.f90")},
+                                                             "contentChanges": [lsp_change(prev)]})
         adapter.notify(s, c, "textDocument/didClose", {"textDocument": {"uri": adapter.uri(d, "s.f90")}})
         adapter.did_open(s, c, d, "s.f90")
         got = list(s.workspace[path].contents_split)
@@ -195,7 +206,7 @@ def run_session(ck, beh, rnd, full_sync=False):
         i = 0
         while i < len(steps):
             kind = steps[i][1]["edit"]["k"]
-            if kind in ("save", "reopen"):
+            if kind in ("save", "reopen", "opendirty"):
                 group = steps[i:i + 1]
                 i += 1
                 st1 = group[0][1]
@@ -204,6 +215,9 @@ def run_session(ck, beh, rnd, full_sync=False):
                     with open(path, "w", newline="") as fh:
                         fh.write(render(st1["lines"], st1["eols"]))
                     adapter.notify(s, c, "textDocument/didSave", {"textDocument": {"uri": adapter.uri(d, "s.f90")}})
+                elif kind == "opendirty":
+                    adapter.notify(s, c, "textDocument/didClose", {"textDocument": {"uri": adapter.uri(d, "s.f90")}})
+                    adapter.did_open(s, c, d, "s.f90", text=render(st1["lines"], st1["eols"]))
                 else:
                     adapter.notify(s, c, "textDocument/didClose", {"textDocument": {"uri": adapter.uri(d, "s.f90")}})
                     adapter.did_open(s, c, d, "s.f90")
@@ -211,7 +225,7 @@ def run_session(ck, beh, rnd, full_sync=False):
             else:
                 k = 1 if full_sync else rnd.choice([1, 1, 2, 3])
                 group = []
-                while i < len(steps) and len(group) < k and steps[i][1]["edit"]["k"] not in ("save", "reopen"):
+                while i < len(steps) and len(group) < k and steps[i][1]["edit"]["k"] not in ("save", "reopen", "opendirty"):
                     group.append(steps[i])
                     i += 1
                 if full_sync:
@@ -228,7 +242,7 @@ def run_session(ck, beh, rnd, full_sync=False):
                 tags = set()
                 for g in group:
                     tags |= edit_tags(g[1]["edit"])
-                if full_sync and kind not in ("save", "reopen"):
+                if full_sync and kind not in ("save", "reopen", "opendirty"):
                     last = group[-1][1]
                     tags = {"action:full"} | ({"text:endsInBreak", "text:multiline"} if last["lines"][-1] == [] and last["eols"] else set())
                 tags |= describe_diff(exp, got) | {"binding:didChange"}
